@@ -181,12 +181,21 @@ fn rush_cases(base: &MpcCase, corrupt: usize, msgs: &[crate::sim::net::MsgRec]) 
         }
     }
     let mut out = vec![];
+    let is_sym = |l: &String| (0..n).filter(|j| *j != corrupt).all(|j| msgs.iter().any(|m| m.from == j && m.to == corrupt && m.label == *l));
+    let mut sets: Vec<(usize, Vec<String>)> = vec![];
     for (li, l) in labels.iter().enumerate() {
-        let symmetric = (0..n).filter(|j| *j != corrupt).all(|j| msgs.iter().any(|m| m.from == j && m.to == corrupt && m.label == *l));
-        if !symmetric {
+        if !is_sym(l) {
             continue;
         }
-        let rush = vec![RushSpec { label: l.clone(), occ: None }];
+        sets.push((li, vec![l.clone()]));
+        // two consecutive symmetric rounds (a commitment round and its opening) both reflected
+        if let Some(l2) = labels.get(li + 1).filter(|l2| is_sym(l2)) {
+            sets.push((li, vec![l.clone(), l2.clone()]));
+        }
+    }
+    for (li, ls) in sets {
+        let l = ls.join("+");
+        let rush: Vec<RushSpec> = ls.iter().map(|x| RushSpec { label: x.clone(), occ: None }).collect();
         let mk = |faults: Vec<Fault>| Case { attack: AttackCase { faults, rush: rush.clone(), ..AttackCase::honest(base.clone(), corrupt) }, label: format!("rush:{l}"), repeat: 1 };
         out.push(mk(vec![]));
         for prev in labels[li.saturating_sub(3)..li].iter() {
